@@ -111,10 +111,24 @@ def check(prog, run):
     gr = prog.get_class(WRAP, "GraphQLResult")
     resp = gr.methods.get("response")
     shapes.require(resp is not None, "C10.K2: GraphQLResult.response not found")
-    txt = ast.unparse(resp.node)
-    r.instance("response() omits data when unset")
-    if "self.data is not _UNSET" not in txt:
-        run.report(r, "%s:GraphQLResult.response:data-always" % WRAP, resp.where(), "response() does not omit data for results built without it")
+    from .. import boolx
+
+    def data_written(unset):
+        try:
+            _ev, exits = boolx.walk_under(resp.node, lambda t: unset if t.replace(" ", "") in ("self.datais_UNSET", "self.data==_UNSET") else None)
+        except ValueError as e:
+            raise AnalysisError("C10.K2: %s" % e)
+        out = set()
+        for _k, _st, env in exits:
+            out.add(any(isinstance(x, ast.Assign) and isinstance(x.targets[0], ast.Subscript) and isinstance(x.targets[0].slice, ast.Constant)
+                        and x.targets[0].slice.value == "data" for x in env.get(boolx.STMTS, ())))
+        return out
+    w_unset, w_set = data_written(True), data_written(False)
+    r.instance("response(): data key written when unset: %s, when set: %s" % (sorted(w_unset), sorted(w_set)))
+    if w_unset != {False} or w_set != {True}:
+        run.report(r, "%s:GraphQLResult.response:data-always" % WRAP, resp.where(),
+                   "response() writes the data key %s when the result was built without data and %s when it has data (expected never / always)"
+                   % ("on some path" if True in w_unset else "never", "always" if w_set == {True} else "not always"))
     init = gr.methods["__init__"]
     d = init.node.args.defaults
     r.instance("GraphQLResult data default `%s`" % (ast.unparse(d[0]) if d else None))
